@@ -17,6 +17,7 @@ type Case struct {
 	Obs        T        `json:"obs"`
 	Tags       []string `json:"tags"`
 	Nontrivial bool     `json:"nontrivial"`
+	Note       string   `json:"note,omitempty"`
 }
 
 type Config struct {
@@ -79,6 +80,9 @@ func main() {
 	for i := 0; i < n; i++ {
 		if *only >= 0 && i != *only {
 			continue
+		}
+		if pf := os.Getenv("VERIF_PROGRESS"); pf != "" {
+			os.WriteFile(pf, []byte(fmt.Sprintf("START %s/%d/%d\n", f.Name, *seed, i)), 0o644)
 		}
 		c := f.Run(caseRng(*seed, i), i, *tier)
 		c.ID = fmt.Sprintf("%s/%d/%d", f.Name, *seed, i)
